@@ -240,7 +240,8 @@ def gen_history(rng):
         # normally, with an error, or with an exception that run() hands on to the instructor
         acts = [a for a in gen_actions(rng, allow_raise=False) if a[0] not in ('input', 'input-alias')]
         ops.insert(rng.randint(1, len(ops)), ('run-real-io', acts, rng.choice(['normally', 'with-an-error', 'with-KeyboardInterrupt'])))
-    return {'funcs': funcs, 'main': main, 'ops': ops, 'echo_to_console': rng.random() < 0.15, 'full_traceback': rng.random() < 0.25}
+    return {'funcs': funcs, 'main': main, 'ops': ops, 'echo_to_console': rng.random() < 0.15, 'full_traceback': rng.random() < 0.25,
+            'own_report': rng.random() < 0.15}
 
 
 NOISY = ("class Noisy:\n    def __repr__(self):\n        print('repr of a Noisy was asked for')\n        return 'Noisy()'\n"
@@ -272,7 +273,18 @@ def check_history(ctx, h):
     funcs = [as_acts(a) for a in h['funcs']]
     main = as_acts(h['main'])
     clear_report()
-    contextualize_report(student_file({'funcs': funcs, 'main': main}))
+    if h.get('own_report'):
+        # the grader keeps this submission's report to herself: every command is given that report (the default one holds another
+        # submission meanwhile)
+        from pedal.core.report import Report
+        from props import sbx_common as sc
+        contextualize_report('the_default_reports_program = 1\nprint(the_default_reports_program)\n')
+        own = Report()
+        contextualize_report(student_file({'funcs': funcs, 'main': main}), report=own)
+        sbx = sc.Commands(own)
+        ctx.count('histories_on_a_report_of_their_own')
+    else:
+        contextualize_report(student_file({'funcs': funcs, 'main': main}))
     sandbox = sbx.get_sandbox()
     if h.get('full_traceback'):
         # the instructor's debugging switch: tracebacks keep pedal's own frames too - what the program wrote is the same
